@@ -115,7 +115,11 @@ let check_line (line : string) : unit =
          if get "exec" <> mexec then disagree "exec" mexec (get "exec");
          if get "execvals" <> vals_of wfinal then disagree "exec" (vals_of wfinal) (get "execvals");
          if get "execafter" <> classes_str wfinal then disagree "exec" (classes_str wfinal) (get "execafter");
-         if get "execcalls" <> ids_str (sd_setup_calls d) then disagree "exec" (ids_str (sd_setup_calls d)) (get "execcalls");
+         if get "execcalls" <> ids_str (sd_setup_calls d) then begin
+           disagree "exec" (ids_str (sd_setup_calls d)) (get "execcalls");
+           (* exec = setup (every member's handler, whatever the world holds), then fetch *)
+           oracle "exec_runs_setup"
+         end;
          (* the panicking closure: if the fetch succeeds our payload comes out, else the fetch's panic; same world *)
          let mp = if mexec = "ok" then "boom" else mexec in
          if get "execp" <> mp then disagree "exec" mp (get "execp");
